@@ -115,7 +115,9 @@ def _via_config(job):
             if excuse is None and syntax == "toml":
                 try:
                     import toml as _toml
-                    _toml.loads(text)
+                    got = _toml.loads(text)["bumpver"]["file_patterns"]["f.txt"]
+                    if got != [pat]:
+                        excuse = "the toml library itself reads the array as %r" % (got,)        # (it splits some strings that contain ," - not bumpver's doing)
                 except Exception as ex:  # pylint:disable=broad-except
                     excuse = "the toml library cannot read this text (%s)" % type(ex).__name__
             if excuse:
